@@ -68,6 +68,11 @@ type Behaviour struct {
 	// HandshakeDelayMs: the node answers the client's version message only
 	// after this long (fixes the order in which peers become usable).
 	HandshakeDelayMs int `json:"handshake_delay_ms,omitempty"`
+	// DropHandshakes: the node closes its first k connections during the
+	// version exchange (after reading the client's version message, before
+	// sending its own version / verack) and behaves as configured on every
+	// later connection (a node that is restarting, or has no free slot).
+	DropHandshakes int `json:"drop_handshakes,omitempty"`
 }
 
 func has(l []string, s string) bool {
@@ -84,16 +89,17 @@ type Node struct {
 	Addr string
 	ID   int
 
-	mu     sync.Mutex
-	chain  *Chain
-	old    []*Chain // chains served earlier: like a real node, blocks of stale branches stay known
-	b      Behaviour
-	conns  map[*nodeConn]struct{}
-	recv   map[string]int
-	dials  int
-	txs    map[chainhash.Hash]int // transactions received
-	lies   map[*Chain]*lieData
-	closed bool
+	mu      sync.Mutex
+	chain   *Chain
+	old     []*Chain // chains served earlier: like a real node, blocks of stale branches stay known
+	b       Behaviour
+	conns   map[*nodeConn]struct{}
+	recv    map[string]int
+	dials   int
+	dropped int                    // connections closed during the version exchange so far
+	txs     map[chainhash.Hash]int // transactions received
+	lies    map[*Chain]*lieData
+	closed  bool
 }
 
 type nodeConn struct {
@@ -312,6 +318,17 @@ func (n *Node) serve(k *nodeConn) {
 		}
 		switch m := msg.(type) {
 		case *wire.MsgVersion:
+			if b.DropHandshakes > 0 {
+				n.mu.Lock()
+				drop := n.dropped < b.DropHandshakes
+				if drop {
+					n.dropped++
+				}
+				n.mu.Unlock()
+				if drop {
+					return
+				}
+			}
 			if b.HandshakeDelayMs > 0 {
 				time.Sleep(time.Duration(b.HandshakeDelayMs) * time.Millisecond)
 			}
